@@ -107,7 +107,11 @@ func (i *Int) Add(lhs, rhs *Int) {
 // AddCap sets i = lhs + rhs with capacity capacity.
 // When capacity < 0, it is set to max(lhs.AnnouncedLen(), rhs.AnnouncedLen()) + 1.
 func (i *Int) AddCap(lhs, rhs *Int, capacity int) {
-	(*saferith.Int)(i).Add((*saferith.Int)(lhs), (*saferith.Int)(rhs), capacity)
+	// saferith.Int.Add uses the receiver's limbs as scratch space without clearing them, so a
+	// receiver that aliases rhs or held a longer value before leaks stale limbs into the sum.
+	var sum saferith.Int
+	sum.Add((*saferith.Int)(lhs), (*saferith.Int)(rhs), capacity)
+	(*saferith.Int)(i).SetInt(&sum)
 }
 
 // Neg sets i = -x.
